@@ -128,10 +128,45 @@ fn do_parse(input: &str) -> Result<Result<(RunOptions, Expression), String>, Str
     }
 }
 
+/// What a compile result looks like from outside (for comparing two calls on the same value); a macro
+/// because the result types are not nameable outside the crate.
+macro_rules! compile_digest {
+    ($c:expr, $p:expr) => {
+        match $c {
+            Err(e) => format!("Err {:?}", e),
+            Ok(c) => format!("Ok {} {}", c.scheme($p), iomap_text(&c.io_map())),
+        }
+    };
+}
+
 fn do_compile(opts: &RunOptions, tree: &Expression, paths: &[String]) -> Result<String, String> {
     let t0 = now();
     let c = guarded("compile", || compile(tree, opts))?;
     let t1 = now();
+    // API history: the same value compiled again on the same thread, this time while a clone of the tree
+    // is alive (shared Rc nodes).  compile is a function of the value: both calls must agree.  Skipped when
+    // the wall clock moved (time tests embed the current second).
+    {
+        let alias = tree.clone();
+        let again = guarded("compile", || compile(tree, opts));
+        let t2 = now();
+        drop(alias);
+        if t0 == t2 {
+            let p0 = paths.first().map(|s| s.as_str()).unwrap_or("/");
+            let same = match &again {
+                Err(_) => false,
+                Ok(c2) => guarded("scheme", || compile_digest!(&c, p0) == compile_digest!(c2, p0)).unwrap_or(false),
+            };
+            if !same {
+                let d2 = match &again {
+                    Err(p) => p.clone(),
+                    Ok(c2) => guarded("scheme", || compile_digest!(c2, p0)).unwrap_or_else(|p| p),
+                };
+                let d1 = guarded("scheme", || compile_digest!(&c, p0)).unwrap_or_else(|p| p);
+                return Ok(format!("INCONSISTENT {}", hex(&format!("compile of the same value twice on one thread (second call with a clone of the tree alive): first [{}] second [{}]", d1, d2))));
+            }
+        }
+    }
     match c {
         Err(e) => {
             let dbg = format!("{:?}", e);
@@ -196,10 +231,28 @@ fn handle(line: &str) -> String {
                 Ok((a, c)) => format!("Q {} {}", a as u8, c as u8),
                 Err(p) => p,
             };
-            match do_compile(&opts, &tree, &[path]) {
+            let r = match do_compile(&opts, &tree, &[path]) {
                 Ok(s) => format!("{} | {}", q, s),
                 Err(p) => format!("{} | {}", q, p),
+            };
+            // API history: the helpers asked again after the compile, and on a structurally equal tree built
+            // afresh after the first one was dropped: same value, same answers.
+            let q2 = match guarded("query", || (tree.action(), tree.complex_frames())) {
+                Ok((a, c)) => format!("Q {} {}", a as u8, c as u8),
+                Err(p) => p,
+            };
+            drop(tree);
+            let q3 = match Sx::parse(&text).and_then(|s| conv::dexpr(&s)) {
+                Some(t2) => match guarded("query", || (t2.action(), t2.complex_frames())) {
+                    Ok((a, c)) => format!("Q {} {}", a as u8, c as u8),
+                    Err(p) => p,
+                },
+                None => q.clone(),
+            };
+            if q2 != q || q3 != q {
+                return format!("INCONSISTENT {}", hex(&format!("action()/complex_frames() of the same value: before compile [{}] after compile [{}] rebuilt [{}]", q, q2, q3)));
             }
+            r
         }
         "Z" => {
             // Z <millis>: let the wall clock advance (histories whose outcome must not depend on it)
